@@ -227,7 +227,9 @@ def evaluate(ctx, cases, each=False):
         impl = [ctx.harness('cresp', [line(c)])[0] for c in cases]
     else:
         impl = ctx.harness('cresp', [line(c) for c in cases])
-    both = ctx.coq_eval(REQS, 'run_resp', [to_coq(c) for c in cases], case_type=CASE_TYPE, per_shard=300)
+    both = []
+    for lo in range(0, len(cases), 6400):         # bounded coqc memory: at most 400 cases per process
+        both += ctx.coq_eval(REQS, 'run_resp', [to_coq(c) for c in cases[lo:lo + 6400]], case_type=CASE_TYPE, per_shard=300)
     return [(i,) + tuple(b.split('|')) for i, b in zip(impl, both)]
 
 
@@ -273,6 +275,8 @@ def run(ctx):
         cases = gen_cases(ctx, quick)
         ctx.log(f'{len(cases)} cases')
         results = evaluate(ctx, cases)
+    bad = [line(c)[:80] for c, r in zip(cases, results) if r[0].startswith('BADLINE')]
+    ctx.oblige('harness-accepts-every-generated-case', not bad, f'{len(bad)} lines rejected by the harness parser, e.g. {bad[:2]}')
     n_model = n_spec = 0
     reported = set()
     classes = {}
@@ -306,6 +310,11 @@ def run(ctx):
             if n_model <= 2:
                 ctx.violation('model-differs-from-impl', f'{line(c)[:120]}: impl `{impl[:80]}` model `{model[:80]}`',
                               {'cases': [jcase(c)], 'impl': impl, 'model': model, 'spec': spec}, no_failing_input=True)
+    if not quick and not ctx.replay:
+        k = min(len(cases), 20000)
+        loud = ctx.harness('cresp', [line(c) for c in cases[:k]], args=['--decode', 'max'])
+        diff = [i for i in range(k) if loud[i] != results[i][0]]
+        ctx.oblige('decode-level-max-gives-identical-results', not diff, f'{len(diff)} of {k} lines differ, first: {line(cases[diff[0]])[:100] if diff else ""}')
     ctx.oblige('correspondence:handle-response-vs-model', n_model == 0, f'{n_model} cases where the implementation differs from the model only (error class)')
     ctx.oblige('correspondence:handle-response-vs-spec', n_spec == 0, f'{n_spec} cases where the implementation differs from the Spec')
     if not ctx.replay:
